@@ -57,7 +57,7 @@ theorem wfp_set_pending (c : Cfg) (r : Reg) (L : Ledger) (h : WFP c r L) (i : Na
    fun h0 => pendList_set_none r i (h.pzero h0)⟩
 
 /-- GC_Rem_Ptr, positional version -/
-theorem remPtr_absO (c : Cfg) (r : Reg) (L : Ledger) (hwf : WFP c r L) (x : Nat) :
+theorem remPtr_absO (c : Cfg) (r : Reg) (L : Ledger) (hwf : WFP c r L) (x : Nat) (hx0 : x ≠ 0 ∨ r.pending = #[]) :
     ∃ r1 fi, remPtr c r x = some (r1, fi) ∧ r1.running = r.running ∧
       ((∃ i, r.pending.toList.findIdx? (fun y => y == some x) = some i ∧ fi = some x ∧
           r1.pending.toList = r.pending.toList.set i none ∧ WFP c r1 L) ∨
@@ -66,7 +66,7 @@ theorem remPtr_absO (c : Cfg) (r : Reg) (L : Ledger) (hwf : WFP c r L) (x : Nat)
        (r.pending.toList.findIdx? (fun y => y == some x) = none ∧ x ∉ L.map Prod.fst ∧ fi = none ∧ r1 = r)) := by
   have hconv : r.pending.toList.findIdx? (fun y => y == some x) = r.pending.findIdx? (fun y => y == some x) := by
     cases r.pending; simp
-  obtain ⟨r1, fi, h1, h2, _, h4⟩ := remPtr_abs c r L hwf x
+  obtain ⟨r1, fi, h1, h2, _, h4⟩ := remPtr_abs c r L hwf x hx0
   refine ⟨r1, fi, h1, h2, ?_⟩
   -- recompute which branch was taken from the positional search
   unfold remPtr at h1
@@ -89,8 +89,12 @@ theorem remPtr_absO (c : Cfg) (r : Reg) (L : Ledger) (hwf : WFP c r L) (x : Nat)
     · exact Or.inr (Or.inr ⟨hnone, hxL, rfl, rfl⟩)
   · cases hfi : r.pending.findIdx? (fun y => y == some x) with
     | some i =>
-      rw [dif_pos hn, hfi] at h1
-      simp only [Option.some.injEq, Prod.mk.injEq] at h1
+      have hxne : x ≠ 0 := by
+        rcases hx0 with h | h
+        · exact h
+        · rw [h] at hfi; simp at hfi
+      rw [dif_pos hn, findIdx_pend r x hx0, hfi] at h1
+      simp only [if_neg hxne, Option.some.injEq, Prod.mk.injEq] at h1
       obtain ⟨e1, e2⟩ := h1
       subst e1; subst e2
       exact Or.inl ⟨i, by rw [hconv, hfi], rfl, by simp, wfp_set_pending c r L hwf i⟩
@@ -111,19 +115,19 @@ theorem rem_tailO (c : Cfg) (g : GoodCfg c) (r2 : Reg) (L : Ledger) (h : WFP c r
   exact ⟨r3, hr3, hw, hmeta.pending, hrun⟩
 
 /-- nested removals refine the positional abstract recursion, for every `K` and every fuel -/
-theorem exec_simO (c : Cfg) (g : GoodCfg c) (K : Nat → List Nat) :
-    ∀ (fuel : Nat) (r : Reg) (a : AbsO) (cmd : Cmd), WFP c r a.1 → r.pending.toList = a.2 →
+theorem exec_simO (c : Cfg) (g : GoodCfg c) (K : Nat → List Nat) (hK : NoNull K) :
+    ∀ (fuel : Nat) (r : Reg) (a : AbsO) (cmd : Cmd), WFP c r a.1 → r.pending.toList = a.2 → CmdOk r cmd →
       SimO c r.running (exec c K fuel r cmd) (absExecO K r.running fuel a cmd) := by
   intro fuel
   induction fuel with
-  | zero => intro r a cmd _ _; simp [exec, absExecO, SimO]
+  | zero => intro r a cmd _ _ _; simp [exec, absExecO, SimO]
   | succ fuel ih =>
-    intro r a cmd hwf hp
+    intro r a cmd hwf hp hok
     cases cmd with
     | fin p =>
       rw [exec_fin_succ]
       simp only [absExecO]
-      have hfold : ∀ (l : List Nat) (x : Option (Reg × List Nat)) (y : Option (AbsO × List Nat)),
+      have hfold : ∀ (l : List Nat) (x : Option (Reg × List Nat)) (y : Option (AbsO × List Nat)), (∀ z ∈ l, z ≠ 0) →
           SimO c r.running x y →
           SimO c r.running
             (l.foldl (fun (acc : Option (Reg × List Nat)) y =>
@@ -142,17 +146,17 @@ theorem exec_simO (c : Cfg) (g : GoodCfg c) (K : Nat → List Nat) :
                 | some (a'', t') => some (a'', t ++ t')) y) := by
         intro l
         induction l with
-        | nil => intro x y h; exact h
+        | nil => intro x y _ h; exact h
         | cons z l ihl =>
-          intro x y h
+          intro x y hz h
           simp only [List.foldl_cons]
-          apply ihl
+          apply ihl _ _ (fun w hw => hz w (List.mem_cons_of_mem _ hw))
           match x, y, h with
           | none, none, _ => simp [SimO]
           | some (r', t), some (a', t'), h =>
             obtain ⟨h1, h2, h3, h4⟩ := h
             subst h1
-            have := ih r' a' (.rem z) h2 h3
+            have := ih r' a' (.rem z) h2 h3 (Or.inl (hz z List.mem_cons_self))
             rw [h4] at this
             simp only []
             match hx : exec c K fuel r' (.rem z), hy : absExecO K r.running fuel a' (.rem z), this with
@@ -162,7 +166,7 @@ theorem exec_simO (c : Cfg) (g : GoodCfg c) (K : Nat → List Nat) :
               subst e1
               exact ⟨rfl, e2, e3, e4⟩
       have h0 : SimO c r.running (some (r, [])) (some (a, [])) := ⟨rfl, hwf, hp, rfl⟩
-      have := hfold (K p) _ _ h0
+      have := hfold (K p) _ _ (fun z hz hz0 => hK p (hz0 ▸ hz)) h0
       match hx : (K p).foldl _ (some (r, [])), hy : (K p).foldl _ (some (a, [])), this with
       | none, none, _ => simp [SimO]
       | some (r', t), some (a', t'), h' =>
@@ -176,7 +180,7 @@ theorem exec_simO (c : Cfg) (g : GoodCfg c) (K : Nat → List Nat) :
       | false => simp only [Bool.not_false, if_true]; exact ⟨rfl, hwf, hp, hrun⟩
       | true =>
         simp only [Bool.not_true, Bool.false_eq_true, if_false]
-        obtain ⟨r1, fi, hrem, hrun1, hcases⟩ := remPtr_absO c r a.1 hwf x
+        obtain ⟨r1, fi, hrem, hrun1, hcases⟩ := remPtr_absO c r a.1 hwf x hok
         rw [hrem]; simp only []
         have tail : ∀ (x' : Option (Reg × List Nat)) (y' : Option (AbsO × List Nat)), SimO c true x' y' →
             SimO c true
@@ -198,13 +202,13 @@ theorem exec_simO (c : Cfg) (g : GoodCfg c) (K : Nat → List Nat) :
         · subst hfi
           rw [← hp, hidx]
           simp only []
-          have := ih r1 (a.1, r.pending.toList.set i none) (.fin x) hw1 hpl
+          have := ih r1 (a.1, r.pending.toList.set i none) (.fin x) hw1 hpl trivial
           rw [hrun1, hrun] at this
           exact tail _ _ this
         · subst hfi
           rw [← hp, hnone]
           simp only [if_pos hxL]
-          have := ih r1 (a.1.filter (fun y => y.1 != x), r.pending.toList) (.fin x) hw1 (by rw [hpend])
+          have := ih r1 (a.1.filter (fun y => y.1 != x), r.pending.toList) (.fin x) hw1 (by rw [hpend]) trivial
           rw [hrun1, hrun] at this
           exact tail _ _ this
         · subst hfi; subst hr1
@@ -310,7 +314,7 @@ def absFinLoop (K : Nat → List Nat) (running : Bool) : (todo i : Nat) → AbsO
     | _ => absFinLoop K running todo (i+1) a t
 
 /-- **the finalisation loop of GC_Sweep refines the abstract loop and always answers** -/
-theorem finaliseLoop_simO (c : Cfg) (g : GoodCfg c) (K : Nat → List Nat) :
+theorem finaliseLoop_simO (c : Cfg) (g : GoodCfg c) (K : Nat → List Nat) (hK : NoNull K) :
     ∀ (todo i : Nat) (r : Reg) (a : AbsO) (t : List Nat), WFP c r a.1 → r.pending.toList = a.2 →
       ∃ r' a' t', finaliseLoop c K todo i r t = some (r', t') ∧ absFinLoop K r.running todo i a t = some (a', t') ∧
         WFP c r' a'.1 ∧ r'.pending.toList = a'.2 ∧ r'.running = r.running := by
@@ -337,7 +341,7 @@ theorem finaliseLoop_simO (c : Cfg) (g : GoodCfg c) (K : Nat → List Nat) :
         rw [hfuel]
         obtain ⟨a2, t2, ha2, _, _⟩ := absExecO_ok K r.running (absFuel (a.1, a.2.set i none) + 1) (a.1, a.2.set i none) (.fin p)
           (size_le_fuel _)
-        have hsim := exec_simO c g K (absFuel (a.1, a.2.set i none) + 1) _ (a.1, a.2.set i none) (.fin p) hw1 hp1
+        have hsim := exec_simO c g K hK (absFuel (a.1, a.2.set i none) + 1) _ (a.1, a.2.set i none) (.fin p) hw1 hp1 trivial
         rw [show ({ r with pending := r.pending.setIfInBounds i none } : Reg).running = r.running from rfl, ha2] at hsim
         rw [ha2]
         simp only []
@@ -353,7 +357,7 @@ theorem finaliseLoop_simO (c : Cfg) (g : GoodCfg c) (K : Nat → List Nat) :
 /-- **GC_Sweep with arbitrary destructors.**  The compaction reclaims the unmarked non-root objects, listing them in some
     order `order` (each once); the finalisation loop then refines `absFinLoop` from (kept ledger, `order`); the sweep always
     answers, and the final state is well formed (pending list empty) for the abstract result. -/
-theorem gcSweep_simO (c : Cfg) (g : GoodCfg c) (K : Nat → List Nat) (r : Reg) (L : Ledger) (mk : Nat → Bool → Bool)
+theorem gcSweep_simO (c : Cfg) (g : GoodCfg c) (K : Nat → List Nat) (hK : NoNull K) (r : Reg) (L : Ledger) (mk : Nat → Bool → Bool)
     (h : Core c r L mk) (hc : r.nitems = occ r.slots) (hroom : Room r) (hb : Bounded r L) (hnd : (L.map Prod.fst).Nodup) :
     ∃ (order : List Nat) (r' : Reg) (a' : AbsO) (t : List Nat),
       gcSweep c K r = some (r', t) ∧
@@ -438,7 +442,7 @@ theorem gcSweep_simO (c : Cfg) (g : GoodCfg c) (K : Nat → List Nat) (r : Reg) 
     show ((removed.map (fun x => some x.key)).toArray).toList = _
     simp [List.map_map]
   obtain ⟨r3, a', t, hfin, habs, hw3, hp3, hrun3⟩ :=
-    finaliseLoop_simO c g K ({ r1 with mitems := c.mitemsOf r1.nitems } : Reg).pending.size 0 _
+    finaliseLoop_simO c g K hK ({ r1 with mitems := c.mitemsOf r1.nitems } : Reg).pending.size 0 _
       (collectBy L mk, (removed.map (fun x => x.key)).map some) [] hw2 hp2
   have hsize : ({ r1 with mitems := c.mitemsOf r1.nitems } : Reg).pending.size = (removed.map (fun x => x.key)).length := by
     show r1.pending.size = _
@@ -502,6 +506,7 @@ def stepK (c : Cfg) (K : Nat → List Nat) (r : Reg) : Op → Option Reg
   | .new p root marks => (gcSet c K r p root marks).map (fun x => x.1)
   | .newRaw _ => some r
   | .del p => (gcRem c K r p).map (fun x => x.1)
+  | .delRaw p => (exec c K (nestFuel r + 1) r (.fin p)).map (fun x => x.1)
   | .sweep marks =>
     match markAll c r marks with
     | none => none
@@ -526,6 +531,7 @@ inductive LedgerK (K : Nat → List Nat) (r : Reg) (L : Ledger) : Op → Ledger 
   | del_run (p a' t) : r.running = true → absExecO K true (absFuel (L, [])) (L, []) (.rem p) = some (a', t) →
       LedgerK K r L (.del p) a'.1
   | del_stopped (p) : r.running = false → LedgerK K r L (.del p) L
+  | delRaw (p a' t) : absExecO K r.running (absFuel (L, []) + 1) (L, []) (.fin p) = some (a', t) → LedgerK K r L (.delRaw p) a'.1
   | sweep (marks L') : SweepL K r.running L marks L' → LedgerK K r L (.sweep marks) L'
   | stop : LedgerK K r L .stop L
   | start : LedgerK K r L .start L
@@ -538,7 +544,7 @@ theorem collectBy_eq_collectL (L : Ledger) (mk0 : Nat → Bool → Bool) (marks 
   rw [← Bool.or_assoc, hmk0]
 
 /-- a full collection with destructors `K` from a well-formed state -/
-theorem collect_simO (c : Cfg) (g : GoodCfg c) (K : Nat → List Nat) (r : Reg) (L : Ledger) (hwf : WF c r L) (roots : Bool)
+theorem collect_simO (c : Cfg) (g : GoodCfg c) (K : Nat → List Nat) (hK : NoNull K) (r : Reg) (L : Ledger) (hwf : WF c r L) (roots : Bool)
     (marks : List Nat) :
     ∃ r1 r' L' t, markAll c (if roots then markRoots r else r) marks = some r1 ∧ gcSweep c K r1 = some (r', t) ∧
       SweepL K r.running L marks L' ∧ WF c r' L' ∧ r'.running = r.running := by
@@ -563,7 +569,7 @@ theorem collect_simO (c : Cfg) (g : GoodCfg c) (K : Nat → List Nat) (r : Reg) 
     refine ⟨?_, hb0.aligned, ?_⟩
     · intro p b hp; rw [hmeta1.minptr, hmeta1.maxptr]; exact hb0.bounds p b hp
     · intro h0; rw [hmeta1.minptr, hmeta1.maxptr]; exact hb0.zero (by rw [← hn1]; exact h0)
-  obtain ⟨order, r', a', t, hsw, habs, hwf', hrun', hnd, hmem⟩ := gcSweep_simO c g K r1 L _ hcore1 hc1 hroom1 hb1 hwf.nodup
+  obtain ⟨order, r', a', t, hsw, habs, hwf', hrun', hnd, hmem⟩ := gcSweep_simO c g K hK r1 L _ hcore1 hc1 hroom1 hb1 hwf.nodup
   have hrun1 : r1.running = r.running := by rw [hmeta1.running, hmeta0.running]
   rw [collectBy_eq_collectL L mk0 marks hmk0, hrun1] at habs
   rw [collectBy_eq_collectL L mk0 marks hmk0] at hmem
@@ -571,7 +577,7 @@ theorem collect_simO (c : Cfg) (g : GoodCfg c) (K : Nat → List Nat) (r : Reg) 
 
 /-- **one operation, destructors `K`**: from a well-formed state the model answers, some ledger transition explains the
     operation, and the new state is well formed for the new ledger -/
-theorem stepK_wf (c : Cfg) (g : GoodCfg c) (K : Nat → List Nat) (r : Reg) (L : Ledger) (hwf : WF c r L) (op : Op) (hok : okOp L op) :
+theorem stepK_wf (c : Cfg) (g : GoodCfg c) (K : Nat → List Nat) (hK : NoNull K) (r : Reg) (L : Ledger) (hwf : WF c r L) (op : Op) (hok : okOp L op) :
     ∃ r' L', stepK c K r op = some r' ∧ LedgerK K r L op L' ∧ WF c r' L' := by
   cases op with
   | new p root marks =>
@@ -626,7 +632,7 @@ theorem stepK_wf (c : Cfg) (g : GoodCfg c) (K : Nat → List Nat) (r : Reg) (L :
         · intro q b hq
           rcases List.mem_cons.1 hq with h | h
           · have : q = p := congrArg Prod.fst h
-            rw [this]; exact hok.2
+            rw [this]; exact hok.2.1
           · exact hwf.bounded.aligned q b h
         · intro h0
           have : r1.n = 0 := h0
@@ -642,7 +648,7 @@ theorem stepK_wf (c : Cfg) (g : GoodCfg c) (K : Nat → List Nat) (r : Reg) (L :
         rw [hni1, hmeta1.mitems]
       have hnr : (!r.running) = false := by rw [hrun]; rfl
       by_cases h : r.nitems + 1 > r.mitems
-      · obtain ⟨ra, r', L', t, hra, hsw, hL', hwf', _⟩ := collect_simO c g K _ _ wf2 true marks
+      · obtain ⟨ra, r', L', t, hra, hsw, hL', hwf', _⟩ := collect_simO c g K hK _ _ wf2 true marks
         simp only [if_true] at hra
         rw [hrun2] at hL'
         refine ⟨r', L', ?_, LedgerK.new_collect p root marks L' hrun h hL', hwf'⟩
@@ -673,7 +679,7 @@ theorem stepK_wf (c : Cfg) (g : GoodCfg c) (K : Nat → List Nat) (r : Reg) (L :
       have hfuel := nestFuel_eq c r (L, []) hwf.toWFP hp0
       obtain ⟨a', t, ha, _, hlen⟩ := absExecO_ok K true (absFuel (L, [])) (L, []) (.rem p) (by
         simp only [AbsO.size, absFuel, List.countP_nil, List.length_nil]; omega)
-      have hsim := exec_simO c g K (nestFuel r) r (L, []) (.rem p) hwf.toWFP hp0
+      have hsim := exec_simO c g K hK (nestFuel r) r (L, []) (.rem p) hwf.toWFP hp0 (Or.inr hwf.pend)
       rw [hrun, hfuel, ha] at hsim
       match hx : exec c K (absFuel (L, [])) r (.rem p), hsim with
       | some (r', t'), hs =>
@@ -684,23 +690,33 @@ theorem stepK_wf (c : Cfg) (g : GoodCfg c) (K : Nat → List Nat) (r : Reg) (L :
           cases hr' : r'.pending with | mk l => rw [hr'] at this; simp at this; rw [this]
         refine ⟨r', a'.1, ?_, LedgerK.del_run p a' t hrun ha, e2.toWF hpend⟩
         simp only [stepK, gcRem, hfuel, hx, Option.map]
+  | delRaw p =>
+    have hp0 : r.pending.toList = ([] : List (Option Nat)) := by rw [hwf.pend]
+    have hfuel := nestFuel_eq c r (L, []) hwf.toWFP hp0
+    obtain ⟨a', t, ha, _, hlen⟩ := absExecO_ok K r.running (absFuel (L, []) + 1) (L, []) (.fin p) (size_le_fuel _)
+    have hsim := exec_simO c g K hK (nestFuel r + 1) r (L, []) (.fin p) hwf.toWFP hp0 trivial
+    rw [hfuel, ha] at hsim
+    match hx : exec c K (absFuel (L, []) + 1) r (.fin p), hsim with
+    | some (r', t'), hs =>
+      obtain ⟨e1, e2, e3, e4⟩ := hs
+      have hpend : r'.pending = #[] := by
+        have : r'.pending.toList = [] := by
+          rw [e3]; exact List.eq_nil_of_length_eq_zero (by rw [hlen]; rfl)
+        cases hr' : r'.pending with | mk l => rw [hr'] at this; simp at this; rw [this]
+      refine ⟨r', a'.1, ?_, LedgerK.delRaw p a' t ha, e2.toWF hpend⟩
+      simp only [stepK, hfuel, hx, Option.map]
   | sweep marks =>
-    obtain ⟨r1, r', L', t, h1, h2, h3, h4, _⟩ := collect_simO c g K r L hwf false marks
+    obtain ⟨r1, r', L', t, h1, h2, h3, h4, _⟩ := collect_simO c g K hK r L hwf false marks
     simp only [Bool.false_eq_true, if_false] at h1
     exact ⟨r', L', by simp only [stepK, h1, h2, Option.map], LedgerK.sweep marks L' h3, h4⟩
   | stop => exact ⟨_, L, rfl, LedgerK.stop, wf_running c r L hwf false⟩
   | start => exact ⟨_, L, rfl, LedgerK.start, wf_running c r L hwf true⟩
 
-/-- the states reachable with destructors `K`, each with a ledger that explains the history so far and for which the
-    state is well formed -/
+/-- the states reachable with destructors `K`, each with a ledger that explains the history so far (any ledger the abstract
+    transitions `LedgerK` allow: that the state is well formed for every one of them is `reachK_wf`, RegistryOrder.lean) -/
 inductive ReachK (c : Cfg) (K : Nat → List Nat) : Reg → Ledger → Prop where
   | init : ReachK c K Reg.init []
   | step {r : Reg} {L : Ledger} {op : Op} {r' : Reg} {L' : Ledger} :
-      ReachK c K r L → okOp L op → stepK c K r op = some r' → LedgerK K r L op L' → WF c r' L' → ReachK c K r' L'
-
-theorem reachK_wf (c : Cfg) (K : Nat → List Nat) (r : Reg) (L : Ledger) (h : ReachK c K r L) : WF c r L := by
-  cases h with
-  | init => exact wf_init c
-  | step _ _ _ _ hwf => exact hwf
+      ReachK c K r L → okOp L op → stepK c K r op = some r' → LedgerK K r L op L' → ReachK c K r' L'
 
 end Cello.Registry
